@@ -54,9 +54,10 @@ VARIABLES cache,     \* [Tiles -> [m : tick, v : version]]   Absent = not cached
           up,        \* upstream answers
           clock,     \* now (ticks)
           log,       \* upstream log: sequence of [u : tile or meta tile id, ok : BOOLEAN]
-          reply      \* observation of the last action
+          reply,     \* observation of the last action
+          steps      \* number of actions so far (lets the model checker bound the history length exactly)
 
-vars == <<cache, rule, fileM, up, clock, log, reply>>
+vars == <<cache, rule, fileM, up, clock, log, reply, steps>>
 
 Absent  == [m |-> -1, v |-> 0]
 NoRule  == [kind |-> "none", arg |-> 0]
@@ -138,13 +139,17 @@ Request(S) ==
   IN /\ cache' = r.c /\ log' = r.l
      /\ reply' = [op |-> "request", tiles |-> S, kind |-> IF r.err THEN "error" ELSE "ok",
                   served |-> IF r.err THEN <<>> ELSE [i \in 1 .. Len(S) |-> r.c[S[i]].v], srule |-> NoRule]
-     /\ UNCHANGED <<rule, fileM, up, clock>>
+     /\ steps' = steps + 1 /\ UNCHANGED <<rule, fileM, up, clock>>
 
-\* named by outcome so that TLC's coverage shows that every outcome is exercised
-RequestHit(S)         == Request(S) /\ log' = log
-RequestFetch(S)       == Request(S) /\ log' # log /\ up
-RequestStaleServed(S) == Request(S) /\ log' # log /\ ~up /\ reply'.kind = "ok"
-RequestError(S)       == Request(S) /\ reply'.kind = "error"
+\* named by outcome so that TLC's coverage shows that every outcome is exercised (the guards are the
+\* closed forms of the outcomes of Request; OutcomeOK below checks that they are)
+AllCached(S) == \A i \in 1 .. Len(S) : IsCachedTM(cache, S[i], ExpireTimestamp(rule, NoExp))
+Raises(S) == /\ ~up /\ ~AllCached(S)
+             /\ Path = "single" => \E i \in 1 .. Len(S) : cache[S[i]] = Absent
+RequestHit(S)         == AllCached(S) /\ Request(S)
+RequestFetch(S)       == ~AllCached(S) /\ up /\ Request(S)
+RequestStaleServed(S) == ~AllCached(S) /\ ~up /\ ~Raises(S) /\ Request(S)
+RequestError(S)       == Raises(S) /\ Request(S)
 
 SeedUnits == IF Path = "single" THEN Order ELSE Dedupe([i \in 1 .. Len(Order) |-> MetaOf[Order[i]]])
 Main(u) == IF Path = "single" THEN u
@@ -166,23 +171,27 @@ SeedRefresh(sr) ==
   IN /\ cache' = r.c /\ log' = r.l
      /\ reply' = [op |-> "seed", tiles |-> <<>>, kind |-> IF r.dead THEN "error" ELSE "ok", served |-> <<>>,
                   srule |-> sr]
-     /\ UNCHANGED <<rule, fileM, up, clock>>
+     /\ steps' = steps + 1 /\ UNCHANGED <<rule, fileM, up, clock>>
 
-SeedNoop(sr)  == SeedRefresh(sr) /\ log' = log
-SeedFetch(sr) == SeedRefresh(sr) /\ log' # log /\ up
-SeedFail(sr)  == SeedRefresh(sr) /\ log' # log /\ ~up
+SeedNeeded(sr) == \E i \in 1 .. Len(SeedUnits) :
+                     ~IsCachedTM(cache, Main(SeedUnits[i]), ExpireTimestamp(rule, Exp(sr)))
+SeedNoop(sr)  == ~SeedNeeded(sr) /\ SeedRefresh(sr)
+SeedFetch(sr) == SeedNeeded(sr) /\ up /\ SeedRefresh(sr)
+SeedFail(sr)  == SeedNeeded(sr) /\ ~up /\ SeedRefresh(sr)
 
-Tick(d) == /\ clock + d <= MaxClock /\ clock' = clock + d /\ reply' = NoReply
+Env == reply' = NoReply /\ steps' = steps + 1        \* actions of the environment
+Tick(d) == /\ clock + d <= MaxClock /\ clock' = clock + d /\ Env
            /\ UNCHANGED <<cache, rule, fileM, up, log>>
-TouchThresholdFile == fileM' = clock /\ reply' = NoReply /\ UNCHANGED <<cache, rule, up, clock, log>>
-SetThreshold(r) == r # rule /\ rule' = r /\ reply' = NoReply /\ UNCHANGED <<cache, fileM, up, clock, log>>
-UpstreamFail    == up /\ up' = FALSE /\ reply' = NoReply /\ UNCHANGED <<cache, rule, fileM, clock, log>>
-UpstreamRecover == ~up /\ up' = TRUE /\ reply' = NoReply /\ UNCHANGED <<cache, rule, fileM, clock, log>>
+TouchThresholdFile == fileM' = clock /\ Env /\ UNCHANGED <<cache, rule, up, clock, log>>
+Configure(r)    == rule' = r /\ Env /\ UNCHANGED <<cache, fileM, up, clock, log>>
+SetThreshold(r) == r # rule /\ Configure(r)
+UpstreamFail    == up /\ up' = FALSE /\ Env /\ UNCHANGED <<cache, rule, fileM, clock, log>>
+UpstreamRecover == ~up /\ up' = TRUE /\ Env /\ UNCHANGED <<cache, rule, fileM, clock, log>>
 
 SeqsOf(S) == {q \in UNION {[1 .. k -> S] : k \in 1 .. Cardinality(S)} : \A i, j \in 1 .. Len(q) : i # j => q[i] # q[j]}
 
 Init == /\ cache = [t \in Tiles |-> Absent] /\ rule = NoRule /\ fileM = 0 /\ up = TRUE /\ clock = 2
-        /\ log = <<>> /\ reply = NoReply
+        /\ log = <<>> /\ reply = NoReply /\ steps = 0
 
 Next ==
   \/ \E S \in SeqsOf(Tiles) : RequestHit(S) \/ RequestFetch(S) \/ RequestStaleServed(S) \/ RequestError(S)
@@ -198,11 +207,18 @@ Spec == Init /\ [][Next]_vars
 TypeOK ==
   /\ \A t \in Tiles : cache[t] = Absent \/ (cache[t].m \in 0 .. clock /\ cache[t].v \in 1 .. NOk(log))
   /\ rule.kind \in {"none", "time", "age", "file"} /\ rule.arg \in Nat
-  /\ fileM \in 0 .. clock /\ up \in BOOLEAN /\ clock \in Nat
+  /\ fileM \in 0 .. clock /\ up \in BOOLEAN /\ clock \in Nat /\ steps \in Nat
   /\ \A i \in 1 .. Len(log) : log[i].ok \in BOOLEAN
 
 \* tiles of one meta tile are written together
 UnitUniform == Path = "meta" => \A t1, t2 \in Tiles : MetaOf[t1] = MetaOf[t2] => cache[t1] = cache[t2]
+
+\* the action names tell the outcome
+OutcomeOK ==
+  /\ reply'.op = "request" =>
+        /\ AllCached(reply'.tiles) <=> log' = log
+        /\ Raises(reply'.tiles) <=> reply'.kind = "error"
+  /\ reply'.op = "seed" => (SeedNeeded(reply'.srule) <=> log' # log)
 
 \* the one-second granularity of the statement: strictly earlier / strictly later seconds are decided,
 \* the threshold's own second is free
@@ -270,4 +286,5 @@ PropServeFresh == [][ServeFreshNoUpstream]_vars
 PropFailKeeps  == [][FailedRefreshKeepsOld]_vars
 PropSeedStale  == [][SeedStaleRefetched]_vars
 PropSeedFresh  == [][SeedFreshNoUpstream]_vars
+PropOutcome    == [][OutcomeOK]_vars
 =============================================================================
